@@ -189,6 +189,7 @@ impl<'a> Tr<'a> {
             Expr::Break(b) => {
                 let label = b.label.as_ref().map(|l| l.ident.to_string());
                 let pos = self.find_frame(&label, false, e.span())?;
+                self.frames[pos].breaks += 1;
                 let depth = self.frames.len() - 1 - pos;
                 let mut pre = Vec::new();
                 let vterm = match &b.expr {
@@ -240,6 +241,11 @@ impl<'a> Tr<'a> {
                 // pure `if` with pure branches
                 if let Expr::If(i) = e {
                     if let Some(o) = self.try_pure_if(i, expect)? {
+                        return Ok(o);
+                    }
+                }
+                if let Expr::Match(m) = e {
+                    if let Some(o) = self.try_pure_match(m, expect)? {
                         return Ok(o);
                     }
                 }
@@ -341,6 +347,10 @@ impl<'a> Tr<'a> {
             }
         }
         let last = segs.last().cloned().unwrap_or_default();
+        if last == "None" && segs.len() >= 2 {
+            let t = self.sub.fresh();
+            return Ok(Out::pure("none".into(), Ty::Option(Box::new(t))));
+        }
         if segs.len() >= 2 {
             let tyname = &segs[segs.len() - 2];
             // integer associated constants
@@ -548,6 +558,13 @@ impl<'a> Tr<'a> {
         let e = peel(e);
         if let Expr::Cast(c) = e {
             return self.ptr_pattern(&c.expr);
+        }
+        if let Expr::Path(pp) = e {
+            if pp.path.segments.len() == 1 {
+                if let Some((term, ty)) = self.ptr_alias.get(&pp.path.segments[0].ident.to_string()).cloned() {
+                    return Ok(Some((Out::pure(term, ty), None)));
+                }
+            }
         }
         if let Expr::MethodCall(m) = e {
             let name = m.method.to_string();
@@ -875,6 +892,72 @@ impl<'a> Tr<'a> {
         }
         let _ = expect;
         self.err(m.span(), &format!("unsupported method `{}` on {}", name, rt))
+    }
+
+    /// `match x { lit | lit => a, lo..=hi => b, _ => c }` on a scalar with simple pure arm bodies
+    fn try_pure_match(&mut self, m: &syn::ExprMatch, expect: Option<&Ty>) -> R<Option<Out>> {
+        fn simple(e: &Expr) -> bool {
+            match e {
+                Expr::Path(_) | Expr::Lit(_) => true,
+                Expr::Paren(p) => simple(&p.expr),
+                Expr::Reference(r) => simple(&r.expr),
+                Expr::Unary(u) => simple(&u.expr),
+                Expr::Field(f) => simple(&f.base),
+                Expr::Cast(c) => simple(&c.expr),
+                _ => false,
+            }
+        }
+        if !simple(&m.expr) {
+            return Ok(None);
+        }
+        for a in &m.arms {
+            if a.guard.is_some() || !simple(&a.body) {
+                return Ok(None);
+            }
+            let ok = Self::is_scalar_cond_pat(&a.pat) || matches!(peel_pat(&a.pat), Pat::Wild(_));
+            if !ok {
+                return Ok(None);
+            }
+        }
+        let last_is_wild = m.arms.last().map(|a| matches!(peel_pat(&a.pat), Pat::Wild(_))).unwrap_or(false);
+        if !last_is_wild {
+            return Ok(None);
+        }
+        let s = self.expr(&m.expr, None)?;
+        if !s.pre.is_empty() || s.diverges {
+            return Ok(None);
+        }
+        let mut ty: Option<Ty> = expect.cloned();
+        let mut parts: Vec<(Option<String>, String)> = Vec::new();
+        for a in &m.arms {
+            let cond = if matches!(peel_pat(&a.pat), Pat::Wild(_)) { None } else { self.int_pat_cond(&a.pat, &s.term, &s.ty)? };
+            let b = self.expr(&a.body, ty.as_ref())?;
+            if !b.pre.is_empty() || b.diverges {
+                return self.err(m.span(), "internal: impure arm in pure-match");
+            }
+            if ty.is_none() {
+                ty = Some(b.ty.clone());
+            }
+            parts.push((cond, b.term));
+        }
+        let mut term = String::new();
+        let mut closers = 0;
+        for (c, b) in &parts {
+            match c {
+                Some(c) => {
+                    write!(term, "(if {} then {} else ", c, b).unwrap();
+                    closers += 1;
+                }
+                None => {
+                    term.push_str(b);
+                    break;
+                }
+            }
+        }
+        for _ in 0..closers {
+            term.push(')');
+        }
+        Ok(Some(Out { pre: vec![], term, ty: ty.unwrap_or(Ty::Unit), diverges: false }))
     }
 
     /// `if c { a } else { b }` where both branches are single pure expressions
